@@ -4,6 +4,7 @@ from __future__ import annotations
 
 import ast
 import itertools
+import os
 
 from ..astutil import call_name, const_str, guard_texts, guards_of, kw
 from ..callgraph import CallGraph
@@ -354,6 +355,42 @@ def run(ctx):
     langs = ["default", "English (en)", "French", "Klingon (tlh)", "ab", "Elvish (qya)", "Português (pt-BR)", "Bad(en) x", "en"]
     got = it.call_function(gl, [langs], {}, None, gl.node)
     r4.check(got == ["French", "Elvish (qya)", "Bad(en) x"], "get_languages_with_bad_tags", "languages without a trailing '(code)' or with an unknown code are reported; 'default' and labels under 3 characters are skipped", gl.loc(), why_fail=repr(got))
+    # the reader of the shipped subtag lists, evaluated on the shipped files themselves (data of the package, read here as
+    # text): every line of a list is a subtag - the first, the last (the files do not end with a newline), all between
+    import pathlib as _pl
+    rtg = ctx.func("pyxform.validators.pyxform.iana_subtags.validation:read_tags", "C20.R4")
+    pkg_dir = os.path.dirname(rtg.module.path)
+
+    def _real_text(path_, enc_):
+        p_ = os.path.realpath(str(path_))
+        if not p_.startswith(os.path.realpath(pkg_dir) + os.sep):
+            raise AnalysisError("C20.R4", f"read_tags opens {p_}, outside the package's subtag directory")
+        with open(p_, encoding=enc_ or "utf-8") as fh_:
+            return fh_.read()
+
+    def h_open(i, a, k, n):
+        text_ = _real_text(a[0], k.get("encoding"))
+        lines_ = text_.splitlines(keepends=True)
+        f_ = Sym("FILE", truthy=True, attrs={"iter": lines_, "read": lambda i2, a2, k2, n2: text_, "readlines": lambda i2, a2, k2, n2: list(lines_),
+                                              "close": lambda i2, a2, k2, n2: None})
+        return f_
+    rt_hooks = {"ext:pathlib.Path": lambda i, a, k, n: _pl.PurePosixPath(*a), "ext:builtins.open": h_open,
+                "method:read_text": lambda i, base, a, k, n: _real_text(base, k.get("encoding")) if isinstance(base, _pl.PurePath) else NotImplemented,
+                "method:open": lambda i, base, a, k, n: h_open(i, [base], k, n) if isinstance(base, _pl.PurePath) else NotImplemented}
+    for fname in ("iana_subtags_2_characters.txt", "iana_subtags_3_or_more_characters.txt"):
+        want_tags = {ln.strip() for ln in open(os.path.join(pkg_dir, fname), encoding="utf-8").read().split("\n")} - {""}
+        itr = ctx.interp("C20.R4", hooks=rt_hooks)
+        itr.reset([])
+        try:
+            got_tags = itr.call_function(rtg, [fname], {}, None, rtg.node)
+            got_tags = set(itr.iterate(got_tags, rtg.node)) - {""}
+            why_ = f"missing {sorted(want_tags - got_tags)[:5]} extra {sorted(got_tags - want_tags)[:5]}"
+        except Raised as e:
+            got_tags, why_ = None, f"raises {e.exc_name}{e.exc_args}"
+        except AnalysisError as e:
+            r4.note(f"read_tags could not be evaluated on {fname} ({e})")
+            continue
+        r4.check(got_tags == want_tags and len(want_tags) > 100, f"read_tags[{fname}]", f"yields every one of the {len(want_tags)} subtags the shipped file lists (first and last line included)", rtg.loc(), why_fail=why_)
     pf = ctx.func("pyxform.survey:Survey.print_xform_to_file", "C20.R4")
     ic = [c for c in walk_own(pf.node) if isinstance(c, ast.Call) and call_name(c) == "get_languages_with_bad_tags"]
     # the call as written, evaluated for a form whose *default language* is itself a language name without a code:
